@@ -55,4 +55,20 @@ impl Listener<(), Option<usize>> for CoroutineCreator {
             _ => {}
         }
     }
+
+    fn on_cancel(&self, local: &CoroutineLocal, old_state: SchedulableCoroutineState) {
+        if CoroutineState::Running == old_state {
+            // the coroutine cancelled itself: `on_state_changed` has done the accounting
+            return;
+        }
+        // the scheduler dropped a parked worker on a cancel request: it never returns, so its
+        // slot and the waiter of the task it was in the middle of are settled here
+        self.released();
+        if let Some(task_id) = local.remove::<u64>(super::WORKER_TASK) {
+            CoroutinePool::settle_cancelled(task_id);
+        }
+        if let Some(pool) = CoroutinePool::current() {
+            _ = pool.try_grow();
+        }
+    }
 }
